@@ -163,14 +163,26 @@ def job_pp(job, n, labelled=False, pdtype="f8"):
             job.validate("pseudopressure_threephase", evalf(res[0].value[0].d[j], env, ufs), float(real[j]), abs_=1e-9 * abs(float(real[-1])), inputs=env)
 
 
-def replay_table(model, n=3, node=1, kr_desc=False):
+def replay_table(model, n=3, node=1, kr_desc=False, ref_order=None):
     import numpy as np
     import warnings
     from bluebonnet.flow import flowproperties as fp
     cols = ["Bo", "Bg", "Bw", "Rs", "Rv", "mu_o", "mu_g", "mu_w", "So"]
     names = [f"p{k}" for k in range(n)] + [f"{c}{k}" for c in cols for k in range(n)] + list(RHO) + \
         [f"{c}{k}" for c in KR_FUNCS for k in range(2)] + ["phi", "Sw", "pf"]
-    m = model_floats(model, names, default={k: 0.5 for k in names})
+    # defaults for what the solver's model leaves open: phases that differ from one another (a model that only fixes the
+    # variables of the failed obligation must not be completed to a table in which oil and gas are interchangeable)
+    base = {"Bo": 1.2, "Bg": 0.005, "Bw": 1.02, "Rs": 0.4, "Rv": 0.01, "mu_o": 1.5, "mu_g": 0.02, "mu_w": 0.7, "So": 0.6, "kro": 0.3, "krg": 0.6, "krw": 0.1}
+    dflt = {k: 0.5 for k in names}
+    for c, v in base.items():
+        for k in range(n):
+            if f"{c}{k}" in dflt:
+                dflt[f"{c}{k}"] = v * (1 + 0.1 * k)
+    m = model_floats(model, names, default=dflt)
+    if ref_order and abs(m["rho_o0"] - m["rho_g0"]) < 1e-9 * abs(m["rho_o0"]):
+        m["rho_g0"] = m["rho_o0"] / 900.0
+    if ref_order and abs(m["rho_o0"] - m["rho_w0"]) < 1e-9 * abs(m["rho_o0"]):
+        m["rho_w0"] = m["rho_o0"] * 1.25
     pvt = {"pressure": np.array([m[f"p{k}"] for k in range(n)]), "pseudopressure": np.zeros(n)}
     if np.any(np.diff(pvt["pressure"]) <= 0) or pvt["pressure"][0] <= 0:
         return False, {"what": "model point outside the property's quantifier (table pressures must be positive and strictly increasing)", "inputs": m}
@@ -184,7 +196,7 @@ def replay_table(model, n=3, node=1, kr_desc=False):
     with warnings.catch_warnings():
         warnings.simplefilter("ignore")
         with np.errstate(all="ignore"):
-            obj = fp.FlowPropertiesTwoPhase.from_table(pvt, krp, {k: m[k] for k in RHO}, m["phi"], m["Sw"], m[f"p{node}"])
+            obj = fp.FlowPropertiesTwoPhase.from_table(pvt, krp, {k: m[k] for k in (ref_order or RHO)}, m["phi"], m["Sw"], m[f"p{node}"])
             ms = np.asarray(obj.pvt_props["m-scaled"], dtype=float)
             mi = float(obj.m_i)
             mf = float(obj.m_scaled_func(m["pf"])) if m[f"p0"] <= m["pf"] <= m[f"p{n - 1}"] else None
@@ -203,6 +215,15 @@ def replay_table(model, n=3, node=1, kr_desc=False):
                 if not abs(got - pvt[c][j]) <= 1e-9 * (abs(pvt[c][j]) + 1e-300):
                     problems.append(f"pvt[{c!r}]({pvt['pressure'][j]!r}) = {got!r} but the table gives {float(pvt[c][j])!r}")
                     break
+    # the stored pseudopressure column is the integral of the documented mobility with the reference densities taken BY NAME
+    with np.errstate(all="ignore"):
+        named = dict(obj.pvt)
+        named.update({k: m[k] for k in RHO})
+        want_pp = np.asarray(fp.pseudopressure_threephase(pvt["pressure"], pvt["So"], named, obj.kr), dtype=float)
+        got_pp = np.asarray(obj.pvt_props["pseudopressure"], dtype=float)
+    if np.all(np.isfinite(want_pp)) and not np.allclose(got_pp, want_pp, rtol=1e-9, atol=0):
+        problems.append(f"reference densities { {k: m[k] for k in (ref_order or RHO)} } (in this key order): stored pseudopressure {got_pp.tolist()} vs "
+                        f"the integral of the mobility with the densities taken by name {want_pp.tolist()}")
     if not np.all(np.isfinite(ms)) or np.any(np.diff(ms) <= 0):
         problems.append(f"m-scaled {ms.tolist()} is not strictly increasing")
     if not abs(mi - 1) <= 1e-9:
@@ -224,7 +245,7 @@ def replay_table(model, n=3, node=1, kr_desc=False):
     return bool(problems), {"what": "; ".join(problems) or "scaled pseudopressure increasing, 1 at p_i, frac face in [0,1)", "inputs": m}
 
 
-def job_table(job, n, node, kr_desc=False):
+def job_table(job, n, node, kr_desc=False, ref_order=None):
     """from_table: plumbing into the wrapper + wrapper behaviour for any computed pseudopressure that
     satisfies what job_pp establishes (0 at the first row, strictly increasing)."""
     rec = {}
@@ -264,7 +285,10 @@ def job_table(job, n, node, kr_desc=False):
         job.bound(kr_table_order="rows listed by decreasing So")
     vs, rdom = box(None, rho_o0=("0.1", 100), rho_g0=("0.001", 10), rho_w0=("0.1", 100), phi=("0.01", 1), Sw=(0, "0.5"), pf=(10, 30000))
     dom = dom + rdom + [T.b_le(P(ps[0]), P(vs["pf"])), T.b_lt(P(vs["pf"]), P(ps[node]))]
-    ref = {k: vs[k] for k in RHO}
+    # the mapping of reference densities is read by key: a caller may have built it in any order (sorted keys, a config file)
+    ref = {k: vs[k] for k in (ref_order or RHO)}
+    if ref_order:
+        job.bound(reference_densities_order=f"mapping built in the key order {list(ref_order)}")
 
     def run():
         rec.clear()
@@ -272,7 +296,7 @@ def job_table(job, n, node, kr_desc=False):
         return obj, obj.m_scaled_func(vs["pf"]), dict(rec)
 
     res = paths(job, run, dom, max_paths=64)
-    rp = (replay_table, {"n": n, "node": node, "kr_desc": kr_desc})
+    rp = (replay_table, {"n": n, "node": node, "kr_desc": kr_desc, "ref_order": ref_order})
     normal = 0
     for k, pr in enumerate(res):
         if pr.exc is not None:
@@ -324,7 +348,9 @@ def jobs(tier):
     out = [("pp3", lambda j: job_pp(j, 3)), ("pp3-labelled", lambda j: job_pp(j, 3, labelled=True)),
            ("pp3-int-pressure", lambda j: job_pp(j, 3, pdtype="i8"))]
     if tier != "quick":
-        out += [("pp4", lambda j: job_pp(j, 4)), ("pp5", lambda j: job_pp(j, 5))]
-    out += [("table3-node1", lambda j: job_table(j, 3, 1)), ("table3-node2", lambda j: job_table(j, 3, 2)),
+        out += [("pp4", lambda j: job_pp(j, 4)), ("pp5", lambda j: job_pp(j, 5)), ("pp7", lambda j: job_pp(j, 7)), ("pp4-labelled", lambda j: job_pp(j, 4, labelled=True)),
+                ("table4-node1", lambda j: job_table(j, 4, 1)), ("table4-node3", lambda j: job_table(j, 4, 3)), ("table4-node2-kr-descending", lambda j: job_table(j, 4, 2, True)),
+                ("pp12", lambda j: job_pp(j, 12)), ("table6-node3", lambda j: job_table(j, 6, 3))]
+    out += [("table3-node2-densities-keyed-g-o-w", lambda j: job_table(j, 3, 2, False, ("rho_g0", "rho_o0", "rho_w0"))), ("table3-node1", lambda j: job_table(j, 3, 1)), ("table3-node2", lambda j: job_table(j, 3, 2)),
             ("table3-node1-kr-descending", lambda j: job_table(j, 3, 1, True))]
     return out
